@@ -108,7 +108,7 @@ func c13Scenarios() []goxScenario {
 		goxScenario{Name: "correlated-subquery", Files: map[string]string{"t.csv": big}, SQL: "SELECT a FROM t WHERE EXISTS (SELECT 1 FROM t z WHERE z.g = t.g AND z.a < t.a)", CPU: 3},
 		goxScenario{Name: "error-in-two-records", Files: map[string]string{"t.csv": big}, SQL: "SELECT a, 10 / (b - 3) FROM t", CPU: 3},
 		// built-in functions that keep process-wide state (random source, compiled-pattern, JSON-query and time-zone caches), one call per record on every worker
-		goxScenario{Name: "functions-with-process-wide-state", Files: map[string]string{"t.csv": big},
+		goxScenario{Name: "functions-with-process-wide-state", FreeRows: 800, Files: map[string]string{"t.csv": big},
 			SQL: "SELECT a, RAND() >= 0, RAND(1, 1 + a) > 0, REGEXP_MATCH(g, 'k[0-9]'), REGEXP_REPLACE(g, '[0-9]', 'x'), JSON_VALUE('a', '{\"a\":1}'), DATETIME_FORMAT(DATETIME('2012-02-03 04:05:06 +09:00'), '%Y'), NOW() IS NOT NULL, TRUNC_TIME(DATETIME('2012-02-03 04:05:06')) IS NOT NULL FROM t", CPU: 3},
 		goxScenario{Name: "print-in-user-function-per-row", Files: map[string]string{"t.csv": big}, SQL: "DECLARE f FUNCTION (@x) AS BEGIN PRINT @x; RETURN @x; END; SELECT f(a) FROM t;", CPU: 3},
 		goxScenario{Name: "variable-assignment-per-row", Files: map[string]string{"t.csv": big}, SQL: "VAR @v := 0; SELECT a, @v := @v + 1 FROM t;", CPU: 3},
@@ -118,9 +118,9 @@ func c13Scenarios() []goxScenario {
 		goxScenario{Name: "outer-cursor-fetched-in-user-function-per-row", Files: map[string]string{"t.csv": big},
 			SQL: "DECLARE cur CURSOR FOR SELECT a FROM t; OPEN cur; DECLARE nxt FUNCTION (@x) AS BEGIN VAR @v; FETCH cur INTO @v; RETURN @v; END; SELECT COUNT(*) FROM (SELECT nxt(a) AS n FROM t) s WHERE n IS NOT NULL;", CPU: 3},
 		// the parser called from every worker: a user function that EXECUTEs a text, evaluated per record
-		goxScenario{Name: "execute-in-user-function-per-row", Files: map[string]string{"t.csv": big},
-			SQL: "DECLARE ex FUNCTION (@x) AS BEGIN VAR @r := 0; EXECUTE 'SELECT ' || @x || ' + 1 INTO @r;'; RETURN @r; END; SELECT a, ex(a) FROM t;", CPU: 3},
-		goxScenario{Name: "user-function-per-row", Files: map[string]string{"t.csv": big}, SQL: "DECLARE f FUNCTION (@x) AS BEGIN VAR @y := @x * 2; RETURN @y + 1; END; SELECT a, f(a) FROM t;", CPU: 3},
+		goxScenario{Name: "execute-in-user-function-per-row", FreeRows: 800, Files: map[string]string{"t.csv": big},
+			SQL: "DECLARE ex FUNCTION (@x) AS BEGIN VAR @r := 0; EXECUTE 'SELECT w' || @x || ' + 1 INTO @r FROM (SELECT ' || @x || ' AS w' || @x || ') AS s' || @x || ';'; RETURN @r; END; SELECT a, ex(a) FROM t;", CPU: 3},
+		goxScenario{Name: "user-function-per-row", FreeRows: 800, Files: map[string]string{"t.csv": big}, SQL: "DECLARE f FUNCTION (@x) AS BEGIN VAR @y := @x * 2; RETURN @y + 1; END; SELECT a, f(a) FROM t;", CPU: 3},
 	)
 	return sc
 }
@@ -195,8 +195,17 @@ func c13Run(c *core.Ctx) {
 		if c.Thorough() {
 			free = 20
 		}
+		fsc := sc
+		if sc.FreeRows > 0 {
+			// the same program over a table long enough for real threads to overlap
+			fsc.Files = map[string]string{}
+			for n, b := range sc.Files {
+				fsc.Files[n] = b
+			}
+			fsc.Files["t.csv"] = csvTable("a,g,b", sc.FreeRows, func(i int) string { return fmt.Sprintf("%d,k%d,%d", i+1, i%3, i*3%7) })
+		}
 		for i := 0; i < free; i++ {
-			goxRunOnce(dir, sc, 4, false, nil)
+			goxRunOnce(dir, fsc, 4, false, nil)
 			report(nil, true)
 		}
 		c.EvalN(int64(e.Executions+free), nontrivial)
